@@ -28,6 +28,7 @@ type MessageHandler interface {
 }
 
 func (sm *storedMessages) add(msg *IncMessage, epoch uint64) {
+	verifPoint("add.enter")
 	sm.lock.Lock()
 	defer sm.lock.Unlock()
 
@@ -130,6 +131,7 @@ func (b *Box) storeOrForward(msg *IncMessage) {
 	// Whether the topic has started is decided under the same lock under which the message is stored,
 	// otherwise a concurrent first Send may drain the buffer in between and the message is stuck forever.
 	b.lock.Lock()
+	verifPoint("sof.locked")
 	if _, started := b.startedSending[string(msg.Topic)]; started {
 		b.lock.Unlock()
 		verifPoint("sof.beforeForward")
@@ -252,6 +254,7 @@ func (b *Box) Send(msgType uint8, topic []byte, msg []byte, to ...UniversalID) {
 
 	verifPoint("send.beforeLock")
 	b.lock.Lock()
+	verifPoint("send.locked")
 	_, started := b.startedSending[string(topic)]
 	_, drainingElsewhere := b.draining[string(topic)]
 	if started || drainingElsewhere {
@@ -293,6 +296,7 @@ func (b *Box) Send(msgType uint8, topic []byte, msg []byte, to ...UniversalID) {
 			verifPoint("send.betweenFlush")
 		}
 		b.lock.Lock()
+		verifPoint("send.relocked")
 	}
 	verifPoint("send.afterUnlock")
 
